@@ -6,6 +6,8 @@
 
 package cluster
 
+import "github.com/kercylan98/vivid/internal/messages"
+
 // ---------------------------------------------------------------------------------------------
 // abstract view of a vector: A(m,k) = counter of node k (absent = 0)
 // ---------------------------------------------------------------------------------------------
@@ -435,3 +437,66 @@ func lemmaViewMergeAssociative(a, b, c *ClusterView) (left, right *ClusterView) 
 //@ loop readClusterView#1
 //@   modifies r.pos, r.err, members[*]
 //@   invariant messages.rwf(r) && members != nil
+
+// ---------------------------------------------------------------------------------------------
+// C12: round-trip lemmas for the hand-written cluster wire messages that consist of scalar fields: each runs the
+// REAL registered writer and reader of the message on an arbitrary value. The messages that carry node states, views
+// or nested messages (JoinRequest/Response, Gossip, GetViewResponse, singletonForwardedMessage) are not covered.
+// ---------------------------------------------------------------------------------------------
+
+// Round is written as int32: values outside that range are outside the wire format
+//@ func lemmaRoundTripLeaveBroadcastRound
+//@   requires m != nil && -2147483648 <= m.Round && m.Round <= 2147483647
+//@   ensures werr == nil && rerr == nil && pos == n && out.Round == m.Round
+func lemmaRoundTripLeaveBroadcastRound(m *LeaveBroadcastRound) (out *LeaveBroadcastRound, werr, rerr error, pos, n int) {
+	w := messages.NewWriter()
+	werr = clusterLeaveBroadcastRoundWriter(m, w, nil)
+	data := w.Bytes()
+	r := messages.NewReader(data)
+	out = &LeaveBroadcastRound{}
+	rerr = clusterLeaveBroadcastRoundReader(out, r, nil)
+	return out, werr, rerr, r.Pos(), len(data)
+}
+
+//@ func lemmaRoundTripJoinRetryTick
+//@   requires m != nil
+//@   ensures werr == nil && rerr == nil && pos == n && out.NextDelay == m.NextDelay
+func lemmaRoundTripJoinRetryTick(m *JoinRetryTick) (out *JoinRetryTick, werr, rerr error, pos, n int) {
+	w := messages.NewWriter()
+	werr = clusterJoinRetryTickWriter(m, w, nil)
+	data := w.Bytes()
+	r := messages.NewReader(data)
+	out = &JoinRetryTick{}
+	rerr = clusterJoinRetryTickReader(out, r, nil)
+	return out, werr, rerr, r.Pos(), len(data)
+}
+
+// (two strings in a row: the equality of the FIRST one - its bytes survive the second, symbolic-length append - is
+// beyond the solvers here; only its length, the second string, the errors and the byte count are discharged)
+//@ func lemmaRoundTripForceMemberDown
+//@   requires m != nil && len(m.NodeID) <= 4294967295 && len(m.AdminToken) <= 4294967295
+//@   ensures werr == nil && rerr == nil && pos == n
+//@   ensures len(out.NodeID) == len(m.NodeID)
+//@   ensures out.AdminToken == m.AdminToken
+func lemmaRoundTripForceMemberDown(m *ForceMemberDown) (out *ForceMemberDown, werr, rerr error, pos, n int) {
+	w := messages.NewWriter()
+	werr = clusterForceMemberDownWriter(m, w, nil)
+	data := w.Bytes()
+	r := messages.NewReader(data)
+	out = &ForceMemberDown{}
+	rerr = clusterForceMemberDownReader(out, r, nil)
+	return out, werr, rerr, r.Pos(), len(data)
+}
+
+//@ func lemmaRoundTripTriggerViewBroadcast
+//@   requires m != nil && len(m.AdminToken) <= 4294967295
+//@   ensures werr == nil && rerr == nil && pos == n && out.AdminToken == m.AdminToken
+func lemmaRoundTripTriggerViewBroadcast(m *TriggerViewBroadcast) (out *TriggerViewBroadcast, werr, rerr error, pos, n int) {
+	w := messages.NewWriter()
+	werr = clusterTriggerViewBroadcastWriter(m, w, nil)
+	data := w.Bytes()
+	r := messages.NewReader(data)
+	out = &TriggerViewBroadcast{}
+	rerr = clusterTriggerViewBroadcastReader(out, r, nil)
+	return out, werr, rerr, r.Pos(), len(data)
+}
